@@ -5,7 +5,7 @@ import YaegiVerif.Expected.C19
 /- Line-protocol front end for C19 (glue, not a proof obligation).
 
    run GRAPH TRAMP BPS CMDS TAPE
-     GRAPH = (g (code clo fwd tnext fnext line posValid isNop parent (children…) func start) …)   node i = i-th entry;
+     GRAPH = (g (code clo fwd tnext fnext line posValid isNop parent (children…) func start kind) …)   node i = i-th entry;
              code/clo: identity of the code / of the closure object of n.exec; fwd: identity of n.debug.forward (0 none);
              -1 = none; func = - for none
      TRAMP = code of the forwarding closures of setExec
@@ -13,9 +13,11 @@ import YaegiVerif.Expected.C19
      CMDS  = (c c e i o u p t …)     continue, step entry/into/over/out/other, terminate; the first starts the session
      TAPE  = (t (c s) (n k tramp) (z) (p) …)   what the closures did, in order: call runCfg on node s, hand over
              to the closure of node k (through a forwarding closure or not), return nil, panic
-   → marks=i.i.i y=EVENTS g=EVENTS out=halt0|halt1|run left=N steps=N idsep=0|1 sep=0|1 resp=ok|unrecorded|nonedge
-     marks: nodes that break after SetBreakpoints (sorted); y: events of the model of yaegi's debugger; g: events of the
-     reference debugger; EVENTS = reason:line:step,… (- if none); left: tape items not consumed; steps: closures executed;
+   → marks=i.i.i cmarks=i.i valid=1.0.… gmarks=i.i.i y=EVENTS g=EVENTS out=halt0|halt1|run left=N steps=N idsep=0|1 sep=0|1
+     resp=ok|unrecorded|nonedge
+     marks / cmarks: nodes with breakOnLine / breakOnCall after SetBreakpoints, per the extracted facts (sorted); valid: Valid of
+     the line requests, in order; gmarks: the line marks per the expected facts; y: events of the model of yaegi's debugger;
+     g: events of the reference debugger (expected facts, told the executing node); EVENTS = reason:line:step,… (- if none); left: tape items not consumed; steps: closures executed;
      idsep: idSeparates; sep: codeSeparates (domain of the unchanged code); resp: the tape follows the edges of the
      graph (hypothesis Respects), unrecorded = through a forwarding closure that is not recorded on its node -/
 namespace YaegiVerif.Driver.C19
@@ -30,7 +32,7 @@ def optNat (s : Sexp) : Option (Option Nat) :=
 
 def parseNode (s : Sexp) : Option Node :=
   match s with
-  | .list [code, clo, fwd, t, f, line, pv, nop, parent, .list ch, .atom fn, start] => do
+  | .list [code, clo, fwd, t, f, line, pv, nop, parent, .list ch, .atom fn, start, .atom kind] => do
     let code ← code.nat?
     let clo ← clo.nat?
     let fwd ← fwd.nat?
@@ -43,7 +45,7 @@ def parseNode (s : Sexp) : Option Node :=
     let ch ← ch.mapM Sexp.nat?
     let start ← optNat start
     some { code, clo, fwd, tnext := t, fnext := f, line, posValid := pv, isNop := nop, parent, children := ch,
-           func := if fn == "-" then none else some fn, start }
+           func := if fn == "-" then none else some fn, start, kind }
   | _ => none
 
 def parseBp (s : Sexp) : Option BpReq :=
@@ -125,16 +127,21 @@ def handle (args : List Sexp) : String :=
      | some nodes, some tramp, some bps, some cmds, some tape =>
        let g : Graph := nodes.toArray
        let F := LoopFacts.ofRaw Generated.C19.facts
-       let marks := place g 0 bps
-       let marked := fun i => marks.contains i
+       let E := LoopFacts.ofRaw Expected.C19.facts
+       let marks := placeLine F g 0 bps
+       let cmarks := placeCall g 0 bps
+       let gmarks := placeLine E g 0 bps
        let P := oracle g tramp
        let fuel := 2 * tape.length + 8
-       let y := drun ⟨F, g, marked, false⟩ P fuel (DCfg.init tape cmds)
+       let y := drun ⟨F, g, fun i => marks.contains i, fun i => cmarks.contains i, false⟩ P fuel (DCfg.init tape cmds)
        -- the reference debugger is the specification: it does not follow the source
-       let r := drun ⟨LoopFacts.ofRaw Expected.C19.facts, g, marked, true⟩ P fuel (DCfg.init tape cmds)
-       let ms := marks.foldl (fun acc x => insertSorted x acc) []
-       let msS := if ms.isEmpty then "-" else ".".intercalate (ms.map toString)
-       s!"marks={msS} y={showEvents g y.events} g={showEvents g r.events} out={showOut y.ctl} left={y.st.length} steps={y.trace.length} idsep={if idSeparates g then 1 else 0} sep={if codeSeparates g then 1 else 0} resp={respects g tape []}"
+       let r := drun ⟨E, g, fun i => gmarks.contains i, fun i => cmarks.contains i, true⟩ P fuel (DCfg.init tape cmds)
+       let showSet := fun (l : List Nat) =>
+         let ms := l.foldl (fun acc x => insertSorted x acc) []
+         if ms.isEmpty then "-" else ".".intercalate (ms.map toString)
+       let valid := (reqLines bps).map fun l => if lineValid g marks l then "1" else "0"
+       let validS := if valid.isEmpty then "-" else ".".intercalate valid
+       s!"marks={showSet marks} cmarks={showSet cmarks} valid={validS} gmarks={showSet gmarks} y={showEvents g y.events} g={showEvents g r.events} out={showOut y.ctl} left={y.st.length} steps={y.trace.length} idsep={if idSeparates g then 1 else 0} sep={if codeSeparates g then 1 else 0} resp={respects g tape []}"
      | _, _, _, _, _ => "bad-op")
   | _ => "bad-op"
 
